@@ -590,6 +590,11 @@ func (j *judge) after(main *played) {
 		if isCrash(&h.Ops[i]) && len(a.RunTrace) != len(b.RunTrace) {
 			j.viol("twin-differs", i, "op %d (crash) passed %d hook points; in the same history without the %s it passed %d", i, len(a.RunTrace), what, len(b.RunTrace))
 		}
+		if isCrash(&h.Ops[i]) && (a.Crashed || b.Crashed) {
+			// which bodies had started when the process died depends on the order in which the runner happened to visit
+			// independent targets, not on the collection: only the number of hook points passed is compared (above)
+			continue
+		}
 		if !reflect.DeepEqual(sortedCopy(a.ExecStart), sortedCopy(b.ExecStart)) || (a.Exit == exitOK) != (b.Exit == exitOK) {
 			j.viol("twin-differs", i, "op %d executed %v (exit %d); in the same history without the %s it executed %v (exit %d)", i,
 				sortedCopy(a.ExecStart), a.Exit, what, sortedCopy(b.ExecStart), b.Exit)
